@@ -35,7 +35,7 @@ def parseTok (t : String) : Option (Option Op) :=
 
 def parseToks (line : String) : Option (List (Option Op)) := (tokens line).mapM parseTok
 
-def parseCase (line : String) : Option (List Op) := (parseToks line).map fun ts => ts.filterMap id
+def parseCase (line : String) : Option (List Op) := (parseToks line).map stripC
 
 /-- what every step shows before anything happened: no fact, no justification -/
 def emptySets : String := "-/-/-/-/0,0,0,0"
@@ -46,21 +46,16 @@ def setsOf (step : String) : String :=
   | _ :: rest => "/".intercalate rest
   | [] => ""
 
-/-- model mode: put a step `c/<sets of the step before>` back for every `C` -/
-def weave : List (Option Op) → List String → String → List String
-  | [], _, _ => []
-  | none :: ts, steps, prev => s!"c/{prev}" :: weave ts steps prev
-  | some _ :: ts, st :: steps, _ => st :: weave ts steps (setsOf st)
-  | some _ :: _, [], _ => []
+/-- the two views of a step's text the maintenance clause needs (`C08.StepView`, Spec.lean) -/
+def strView : StepView String String := { setsOf := setsOf, cstep := fun prev => s!"c/{prev}" }
 
-/-- oracle mode: check the `C` steps (result `c`, sets unchanged) and remove them;
-`.error i` = the maintenance clause fails at (original) step `i` -/
-def unweave : List (Option Op) → List String → String → Nat → Except Nat (List String)
-  | [], rest, _, _ => .ok rest
-  | none :: ts, st :: steps, prev, i =>
-    if st == s!"c/{prev}" then unweave ts steps prev (i + 1) else .error i
-  | some _ :: ts, st :: steps, _, i => (unweave ts steps (setsOf st) (i + 1)).map (st :: ·)
-  | _ :: _, [], _, _ => .ok []
+/-- model mode: put a step `c/<sets of the step before>` back for every `C` (`C08.weave`, Spec.lean) -/
+def weave (ts : List (Option Op)) (steps : List String) (prev : String) : List String := C08.weave strView ts steps prev
+
+/-- oracle mode: check the `C` steps (result `c`, sets unchanged) and remove them (`C08.unweave`, Spec.lean:
+theorems `C08.maintenance_noop`, `C08.maintenance_exact`); `.error i` = the maintenance clause fails at (original) step `i` -/
+def unweave (ts : List (Option Op)) (steps : List String) (prev : String) (i : Nat) : Except Nat (List String) :=
+  C08.unweave strView ts steps prev i
 
 def showRes : Res → String
   | .handle h => s!"h{h}"
@@ -99,7 +94,7 @@ def parseTrace (s : String) : Option (List Obs) :=
 def modelLine (line : String) : String :=
   match parseToks line with
   | some ts =>
-    let ops := ts.filterMap id
+    let ops := stripC ts
     if ts.all Option.isSome then showTrace (trace (universeOf ops) init ops)
     else
       let steps := (trace (universeOf ops) init ops).map showObs
